@@ -48,6 +48,8 @@ class Index:
         self.records = {}    # qualified name -> complete record node
         self.enums = {}      # qualified name / '(unnamed enum at f:l:c)' -> EnumDecl node
         self.redecl = {}     # previousDecl id -> [later redeclaration nodes]
+        self.inline_ns = set()  # qualified names of inline namespaces
+        self.tmpl_defaults = {}  # class template (qualified, without inline namespaces) -> default argument per parameter (or None)
         self._file = None
         self._line = None
         for o in objs:
@@ -109,6 +111,8 @@ class Index:
             if kind == 'NamespaceDecl':
                 sub_scope = scope + [name or '(anonymous)']
                 n['_subscope'] = sub_scope
+                if n.get('isInline'):
+                    self.inline_ns.add('::'.join(sub_scope))
             elif kind in RECORD_KINDS:
                 nm = name or '(anonymous)'
                 if kind == 'ClassTemplateSpecializationDecl':
@@ -120,12 +124,22 @@ class Index:
                 n['_scope'] = list(scope)
                 if n.get('completeDefinition') and not dep:
                     self.records.setdefault(q, n)
+                    alias = self._without_inline(scope, nm)      # clang prints types without inline namespaces
+                    if alias != q:
+                        self.records.setdefault(alias, n)
                 sub_scope = scope + [nm]
                 n['_subscope'] = sub_scope
             elif kind in ('ClassTemplateDecl', 'FunctionTemplateDecl', 'ClassTemplatePartialSpecializationDecl',
                           'TypeAliasTemplateDecl', 'VarTemplateDecl'):
                 # the first record/function child is the pattern (dependent); specialisations follow
-                pass
+                if kind == 'ClassTemplateDecl' and name:
+                    # simple (non-dependent) default template arguments: clang omits them when it prints a type
+                    ps = [c for c in n.get('inner', []) if c.get('kind', '').startswith('TemplateT') or c.get('kind') == 'NonTypeTemplateParmDecl']
+                    defs = []
+                    for c in ps:
+                        t = (c.get('defaultArg') or {}).get('type') or {}
+                        defs.append(t.get('desugaredQualType') or t.get('qualType'))
+                    self.tmpl_defaults[self._without_inline(scope, name)] = defs
             elif kind == 'EnumDecl':
                 q = '::'.join(scope + [name]) if name else None
                 n['_q'] = q
@@ -161,6 +175,33 @@ class Index:
                 elif kind == 'ClassTemplatePartialSpecializationDecl':
                     cd = True
                 self._walk(c, sub_scope, parent_for_children, cd)
+
+    def complete_defaults(self, s):
+        """`ns::T<a>` -> `ns::T<a, d>` when clang left out the trailing default template arguments"""
+        i = s.find('<')
+        if i < 0 or not s.endswith('>') or s[:i] not in self.tmpl_defaults:
+            return None
+        args, depth, cur = [], 0, ''
+        for ch in s[i + 1:-1]:
+            if ch == ',' and depth == 0:
+                args.append(cur.strip())
+                cur = ''
+                continue
+            depth += ch in '<(' 
+            depth -= ch in '>)'
+            cur += ch
+        args.append(cur.strip())
+        defs = self.tmpl_defaults[s[:i]]
+        if len(args) >= len(defs) or any(d is None or not d.replace(' ', '').isalnum() for d in defs[len(args):]):
+            return None
+        return '%s<%s>' % (s[:i], ', '.join(args + defs[len(args):]))
+
+    def _without_inline(self, scope, nm):
+        parts = []
+        for i, c in enumerate(scope):
+            if '::'.join(scope[:i + 1]) not in self.inline_ns:
+                parts.append(c)
+        return '::'.join(parts + [nm])
 
     # ---- lookups -------------------------------------------------------------------------
     def definition(self, node):
